@@ -612,19 +612,19 @@ func (st *State) ufMath(name string, a *Term) *Term {
 	notNaN := ts.Not(st.fIsNaN(a))
 	switch name {
 	case "exp":
-		st.axiom(imp(notNaN, le(zero, r)))
+		ts.Define(r, imp(notNaN, le(zero, r)))
 		if st.realMode() {
-			st.axiom(lt(zero, r))
+			ts.Define(r, lt(zero, r))
 		}
 	case "erfc":
-		st.axiom(imp(notNaN, ts.And(le(zero, r), le(r, two))))
+		ts.Define(r, imp(notNaN, ts.And(le(zero, r), le(r, two))))
 	case "erf":
-		st.axiom(imp(notNaN, ts.And(le(st.fneg(one), r), le(r, one))))
+		ts.Define(r, imp(notNaN, ts.And(le(st.fneg(one), r), le(r, one))))
 	case "log", "log2", "log10":
 		// log x < 0 <=> x < 1 on x > 0; log 1 = 0
 		pos := lt(zero, a)
-		st.axiom(imp(pos, ts.Eq2(lt(r, zero), lt(a, one))))
-		st.axiom(imp(pos, ts.Eq2(st.fcmp(token.EQL, r, zero), st.fcmp(token.EQL, a, one))))
+		ts.Define(r, imp(pos, ts.Eq2(lt(r, zero), lt(a, one))))
+		ts.Define(r, imp(pos, ts.Eq2(st.fcmp(token.EQL, r, zero), st.fcmp(token.EQL, a, one))))
 	}
 	// monotonicity against earlier applications
 	mono := 0
@@ -638,15 +638,15 @@ func (st *State) ufMath(name string, a *Term) *Term {
 		for _, p := range prev {
 			pa := p.args[0]
 			if mono > 0 {
-				st.axiom(imp(le(a, pa), le(r, p)))
-				st.axiom(imp(le(pa, a), le(p, r)))
+				ts.Define(r, imp(le(a, pa), le(r, p)))
+				ts.Define(r, imp(le(pa, a), le(p, r)))
 				if st.realMode() && (name == "exp" || name == "log") {
-					st.axiom(imp(lt(a, pa), lt(r, p)))
-					st.axiom(imp(lt(pa, a), lt(p, r)))
+					ts.Define(r, imp(lt(a, pa), lt(r, p)))
+					ts.Define(r, imp(lt(pa, a), lt(p, r)))
 				}
 			} else {
-				st.axiom(imp(le(a, pa), le(p, r)))
-				st.axiom(imp(le(pa, a), le(r, p)))
+				ts.Define(r, imp(le(a, pa), le(p, r)))
+				ts.Define(r, imp(le(pa, a), le(r, p)))
 			}
 		}
 	}
@@ -762,9 +762,13 @@ func (st *State) sortStub(s SliceV, isF bool) {
 		}
 	}
 	perm := make([]*Term, n)
+	key := ""
+	for _, x := range xs {
+		key += fmt.Sprintf("_%d", x.id)
+	}
 	for i := 0; i < n; i++ {
-		out[i] = ts.Sym(st.freshName("sorted"), srt)
-		perm[i] = ts.Sym(st.freshName("perm"), SBV8)
+		out[i] = ts.Sym(fmt.Sprintf("sorted!%d!%s", i, key), srt)
+		perm[i] = ts.Sym(fmt.Sprintf("perm!%d!%s", i, key), SBV8)
 	}
 	var facts []*Term
 	for i := 0; i < n; i++ {
@@ -786,7 +790,10 @@ func (st *State) sortStub(s SliceV, isF bool) {
 			facts = append(facts, ts.Not(st.less(out[i], out[i-1], isF)))
 		}
 	}
-	st.axiom(ts.AndN(facts))
+	all := ts.AndN(facts)
+	for i := 0; i < n; i++ {
+		ts.Define(out[i], all)
+	}
 	for i := 0; i < n; i++ {
 		st.writeCell(s.obj, s.off+i, out[i])
 	}
